@@ -313,3 +313,351 @@ Proof.
     + pose proof (mem_after_reset s1) as H. rewrite Erun in H. cbn in H. destruct H as (E1 & E2 & E3).
       rewrite E1, E2, E3. cbn. repeat split; constructor.
 Qed.
+
+(* ------------------------------------------------------------------ MemoryLogger, concurrently *)
+Lemma mem_locked_all progs : Forall (Forall (fun c => mem_locked c = true)) progs.
+Proof. apply Forall_forall. intros p _. apply Forall_forall. reflexivity. Qed.
+
+(* every method takes the lock, so the generic theorem applies to every program and schedule *)
+Theorem mem_serializable progs sched :
+  serial_view mem_init mem_body progs mem_empty (mem_run progs sched).
+Proof. apply serializable. apply mem_locked_all. Qed.
+
+(* the calls whose critical section is over, in lock-acquisition order *)
+Definition completed (cfg : mem_config) : list (nat * mcall) :=
+  match holder cfg with None => acq cfg | Some _ => removelast (acq cfg) end.
+
+Definition observer (c : mcall) : Prop := c = MValidate \/ c = MSerialize.
+
+(* no call is inside its critical section, or the call inside is a validate() / serialize() *)
+Definition observing (cfg : mem_config) : Prop :=
+  holder cfg = None \/
+  exists h ts c l rest, holder cfg = Some h /\ nth_error (thr cfg) h = Some ts /\
+                        cur ts = Some (c, l, rest) /\ observer c.
+
+Definition same_lists (s s' : mstate) : Prop :=
+  messages s' = messages s /\ serializers s' = serializers s /\ tracebacks s' = tracebacks s.
+
+Lemma run_steps_same_lists (b : list (step mstate locals)) :
+  Forall (fun st => forall l s, same_lists s (snd (st l s))) b ->
+  forall l s, same_lists s (snd (run_steps b l s)).
+Proof.
+  induction 1 as [|st b Hst Hb IH]; intros l s; cbn.
+  - repeat split.
+  - specialize (Hst l s). destruct (st l s) as [l' s']. cbn in Hst.
+    specialize (IH l' s'). destruct Hst as (A1 & A2 & A3), IH as (B1 & B2 & B3).
+    repeat split; congruence.
+Qed.
+
+Lemma observer_body c : observer c ->
+  Forall (fun st => forall l s, same_lists s (snd (st l s))) (mem_body c).
+Proof.
+  intros [->| ->]; cbn; repeat constructor; cbn.
+  - unfold v_loop. destruct (validate_loop _ _). reflexivity.
+  - unfold v_loop. destruct (validate_loop _ _). reflexivity.
+  - unfold v_loop. destruct (validate_loop _ _). reflexivity.
+  - unfold s_loop. destruct (serialize_loop _ _ _). reflexivity.
+  - unfold s_loop. destruct (serialize_loop _ _ _). reflexivity.
+  - unfold s_loop. destruct (serialize_loop _ _ _). reflexivity.
+Qed.
+
+(* at an observation point the three lists are those of the serial run of the completed calls *)
+Lemma mem_observed progs sched :
+  let cfg := mem_run progs sched in
+  observing cfg -> same_lists (fst (mem_serial (completed cfg))) (shared cfg).
+Proof.
+  intros cfg Hobs. pose proof (mem_serializable progs sched) as (Hlen & Hprog & Hview).
+  fold cfg in Hlen, Hprog, Hview. unfold completed.
+  destruct (holder cfg) as [h|] eqn:Hh.
+  - destruct Hobs as [Hobs|(h' & ts & c & l & rest & Eh & Hts & Hcur & Hc)]; [congruence|].
+    rewrite Hh in Eh. injection Eh as <-.
+    destruct Hview as (lg & c' & l' & done & rest' & Hacq & Hbody & Hrun & Hall).
+    destruct (Hall h ts Hts) as [Ecur _]. rewrite Nat.eqb_refl, Hcur in Ecur. injection Ecur as <- <- <-.
+    rewrite Hacq, removelast_last.
+    pose proof (observer_body c Hc) as HF. rewrite Hbody in HF. apply Forall_app in HF as [HF _].
+    pose proof (run_steps_same_lists done HF (mem_init c) (fst (serial mem_init mem_body lg mem_empty))) as H.
+    rewrite Hrun in H. exact H.
+  - destruct Hview as (Hsh & _). rewrite Hsh. repeat split.
+Qed.
+
+Lemma combine_fst_snd {A B} (w : list (A * B)) : combine (map fst w) (map snd w) = w.
+Proof. induction w as [|[a b] w IH]; cbn; congruence. Qed.
+
+Lemma mem_observed_consistent progs sched :
+  let cfg := mem_run progs sched in
+  observing cfg ->
+  let s := shared cfg in
+  let cs := map snd (completed cfg) in
+  messages s = map fst (live_writes cs) /\ serializers s = map snd (live_writes cs) /\
+  sublist (tracebacks s) (tb_writes cs) /\
+  Permutation (tracebacks s ++ flushed_since_reset (map snd (snd (mem_serial (completed cfg))))) (tb_writes cs).
+Proof.
+  intros cfg Hobs s cs. destruct (mem_observed progs sched Hobs) as (E1 & E2 & E3). fold cfg in E1, E2, E3.
+  pose proof (mem_serial_consistent (completed cfg)) as H.
+  destruct (mem_serial (completed cfg)) as [s1 rs]. cbn [fst snd] in *.
+  destruct H as (H1 & H2 & H3 & H4). subst s cs. rewrite E1, E2, E3. auto.
+Qed.
+
+(* each message stays paired with its own serializer, in particular whenever validate()/serialize() look *)
+Theorem paired progs sched :
+  let cfg := mem_run progs sched in
+  observing cfg ->
+  length (messages (shared cfg)) = length (serializers (shared cfg)) /\
+  combine (messages (shared cfg)) (serializers (shared cfg)) = live_writes (map snd (completed cfg)).
+Proof.
+  intros cfg Hobs. destruct (mem_observed_consistent progs sched Hobs) as (H1 & H2 & _). fold cfg in H1, H2.
+  rewrite H1, H2, !map_length, combine_fst_snd. auto.
+Qed.
+
+(* tracebackMessages: in write order, a sub-list of the live traceback writes; together with what the
+   flushTracebacks calls since the last reset returned, exactly those writes (each exactly once) *)
+Theorem tracebacks_consistent progs sched :
+  let cfg := mem_run progs sched in
+  observing cfg ->
+  let cs := map snd (completed cfg) in
+  let returned := map snd (snd (mem_serial (completed cfg))) in
+  sublist (tracebacks (shared cfg)) (tb_writes cs) /\
+  Permutation (tracebacks (shared cfg) ++ flushed_since_reset returned) (tb_writes cs).
+Proof.
+  intros cfg Hobs. destruct (mem_observed_consistent progs sched Hobs) as (_ & _ & H3 & H4). auto.
+Qed.
+
+Lemma lw_fold post : forall w,
+  fold_left lw_step post w =
+    if existsb is_reset post then fold_left lw_step post [] else w ++ writes_of post.
+Proof.
+  induction post as [|c post IH]; intros w; cbn [fold_left existsb writes_of flat_map].
+  - now rewrite app_nil_r.
+  - destruct c as [m z| | |cls|]; cbn [lw_step is_reset orb app].
+    + rewrite IH, (IH [(m, z)]). destruct (existsb is_reset post); [reflexivity|].
+      now rewrite <- app_assoc.
+    + apply IH.
+    + apply IH.
+    + apply IH.
+    + reflexivity.
+Qed.
+
+(* every write is recorded exactly once, at its place in the acquisition order, unless a reset is serialised after it *)
+Theorem once progs sched :
+  let cfg := mem_run progs sched in
+  observing cfg ->
+  forall pre t m z post, completed cfg = pre ++ (t, MWrite m z) :: post ->
+  combine (messages (shared cfg)) (serializers (shared cfg)) =
+    if existsb is_reset (map snd post) then live_writes (map snd post)
+    else live_writes (map snd pre) ++ (m, z) :: writes_of (map snd post).
+Proof.
+  intros cfg Hobs pre t m z post Hc. destruct (paired progs sched Hobs) as [_ H]. fold cfg in H.
+  rewrite H, Hc, map_app. cbn [map snd]. unfold live_writes. rewrite fold_left_app. cbn [fold_left lw_step].
+  rewrite lw_fold. destruct (existsb is_reset (map snd post)); [reflexivity|]. now rewrite <- app_assoc.
+Qed.
+
+(* non-vacuity: three threads; thread 1 is refused the lock twice while thread 0 is between
+   messages.append and serializers.append; the schedule stops while thread 2's serialize() is inside its
+   critical section, after thread 0's first write and thread 1's traceback write and flush *)
+Definition ex_m1 := mkMsg 1 0 VOk.
+Definition ex_m2 := mkMsg 2 2 VOk.
+Definition ex_m3 := mkMsg 3 0 VValidation.
+Definition ex_progs : list (list mcall) :=
+  [ [MWrite ex_m1 (SType 0); MWrite ex_m3 (SType 1); MValidate];
+    [MWrite ex_m2 STraceback; MFlush 1; MReset];
+    [MSerialize; MWrite ex_m2 STraceback] ].
+Definition ex_sched : list nat := segments [(0, 3); (1, 2); (0, 3); (1, 10); (2, 2)].
+
+Example ex_observing :
+  observing (mem_run ex_progs ex_sched) /\
+  holder (mem_run ex_progs ex_sched) = Some 2 /\
+  map fst (acq (mem_run ex_progs ex_sched)) = [0; 1; 1; 2] /\
+  observe_state (shared (mem_run ex_progs ex_sched)) = ([1; 2], [2; 1], [], []).
+Proof.
+  split; [|vm_compute; auto].
+  right. exists 2. vm_compute. do 4 eexists. split; [reflexivity|]. split; [reflexivity|].
+  split; [reflexivity|]. right. reflexivity.
+Qed.
+
+Example ex_finished :
+  let cfg := mem_run ex_progs (ex_sched ++ segments [(2, 2); (1, 6); (2, 6); (0, 10)]) in
+  finished cfg /\
+  map fst (acq cfg) = [0; 1; 1; 2; 1; 2; 0; 0] /\
+  observe_config cfg =
+    (([2; 3], [1; 3], [2], [3]),
+     [[RUnit; RUnit; RErr EValidation]; [RUnit; RIds [2]; RUnit]; [RIds [1; 2]; RUnit]],
+     [0; 1; 1; 2; 1; 2; 0; 0], true) /\
+  observe_serial (acq cfg) =
+    (([2; 3], [1; 3], [2], [3]),
+     [(0, RUnit); (1, RUnit); (1, RIds [2]); (2, RIds [1; 2]); (1, RUnit); (2, RUnit); (0, RUnit); (0, RErr EValidation)]).
+Proof. vm_compute. repeat split; repeat constructor. Qed.
+
+(* ------------------------------------------------------------------ without the lock *)
+(* the same method bodies without @exclusively: A = write(m1, None), B = write(m2, traceback serializer);
+   grants: A enters, validates, appends its message; B enters, validates, appends its message and its
+   serializer; A appends its serializer ...: message 1 is stored next to B's serializer, message 2 next to None,
+   pairs that no write call ever passed *)
+Theorem unlocked_refuted :
+  exists (progs : list (list mcall)) (sched : list nat),
+    let cfg := mem_run_unlocked progs sched in
+    finished cfg /\
+    exists i m z, nth_error (combine (messages (shared cfg)) (serializers (shared cfg))) i = Some (m, z) /\
+                  ~ In (MWrite m z) (concat progs).
+Proof.
+  exists [[MWrite ex_m1 SNone]; [MWrite ex_m2 STraceback]], (segments [(0, 3); (1, 4); (0, 3); (1, 2)]).
+  split; [vm_compute; repeat constructor|].
+  exists 0, ex_m1, STraceback. split; [vm_compute; reflexivity|].
+  cbn. intros [H|[H|[]]]; discriminate.
+Qed.
+
+(* ------------------------------------------------------------------ FileDestination *)
+Lemma split_nl_app a b : forall cur,
+  split_nl (a ++ b) cur =
+    let '(la, fa) := split_nl a cur in let '(lb, fb) := split_nl b fa in (la ++ lb, fb).
+Proof.
+  induction a as [|x a IH]; intros cur; cbn [app split_nl].
+  - destruct (split_nl b cur). reflexivity.
+  - destruct (N.eqb x nl).
+    + rewrite IH. destruct (split_nl a []) as [la fa]. destruct (split_nl b fa). reflexivity.
+    + apply IH.
+Qed.
+
+Lemma complete_lines_snoc d c :
+  fragment d = [] -> no_nl c ->
+  complete_lines (d ++ c ++ [nl]) = complete_lines d ++ [c] /\ fragment (d ++ c ++ [nl]) = [].
+Proof.
+  unfold complete_lines, fragment. intros Hd Hc. rewrite split_nl_app.
+  destruct (split_nl d []) as [la fa]. cbn [snd] in Hd. subst fa.
+  change (c ++ [nl]) with (c ++ nl :: []). rewrite split_nl_line by exact Hc. cbn. auto.
+Qed.
+
+Lemma disk_of_snoc evs e : disk_of (evs ++ [e]) = disk_of evs ++ written e.
+Proof. unfold disk_of. rewrite flat_map_app. cbn. now rewrite app_nil_r. Qed.
+
+Notation ftstate := (tstate (list ev) unit (list byte)).
+
+Definition file_thread_ok (ts : ftstate) : Prop :=
+  Forall no_nl (todo ts) /\
+  match cur ts with
+  | Some (c, _, rest) => no_nl c /\ exists k, rest = skipn k (file_body c)
+  | None => True
+  end.
+
+Definition file_inv (progs : list (list (list byte))) (cfg : file_config) : Prop :=
+  fragment (disk_of (shared cfg)) = [] /\
+  Permutation (complete_lines (disk_of (shared cfg)) ++ file_pending cfg) (concat progs) /\
+  Forall file_thread_ok (thr cfg).
+
+Lemma file_inv_init progs : Forall (Forall no_nl) progs -> file_inv progs (init_config progs []).
+Proof.
+  intros H. unfold file_inv, init_config, file_pending. cbn [shared thr]. split; [reflexivity|]. split.
+  - cbn. rewrite flat_map_concat_map, map_map. unfold file_pending_thread. cbn.
+    rewrite map_id. apply Permutation_refl.
+  - apply Forall_forall. intros ts Hin. apply in_map_iff in Hin as (p & <- & Hp).
+    split; cbn; auto. eapply Forall_forall in H; eauto.
+Qed.
+
+Lemma file_pending_split s h a ts b q :
+  file_pending (mkC s h (a ++ ts :: b) q) =
+    flat_map file_pending_thread a ++ file_pending_thread ts ++ flat_map file_pending_thread b.
+Proof. unfold file_pending. cbn [thr]. rewrite flat_map_app. reflexivity. Qed.
+
+Lemma file_inv_step progs t cfg :
+  file_inv progs cfg -> file_inv progs (step_thread (fun _ => false) (fun _ => tt) file_body t cfg).
+Proof.
+  intros (Hfrag & Hperm & Hok). unfold step_thread.
+  destruct (nth_error (thr cfg) t) as [ts|] eqn:Hts; [|repeat split; auto].
+  destruct cfg as [evs h ths q]. cbn [shared holder thr acq] in *.
+  assert (Hsplit : forall ts', exists a b, ths = a ++ ts :: b /\ upd t ts' ths = a ++ ts' :: b)
+    by (intros ts'; eapply upd_split; eauto).
+  assert (Hts_ok : file_thread_ok ts) by (eapply Forall_forall; [exact Hok|eapply nth_error_In; eauto]).
+  destruct Hts_ok as [Htodo Hcur].
+  destruct (cur ts) as [[[c l] [|st more]]|] eqn:Ecur.
+  - (* Return *)
+    destruct (Hsplit (mkT None (todo ts) (rets ts ++ [(c, l)]))) as (a & b & E1 & E2).
+    rewrite E2. subst ths. unfold file_inv. cbn [shared]. split; [exact Hfrag|]. split.
+    + rewrite file_pending_split in Hperm |- *.
+      assert (P1 : file_pending_thread ts = todo ts) by (unfold file_pending_thread; rewrite Ecur; reflexivity).
+      rewrite P1 in Hperm. exact Hperm.
+    + apply Forall_app in Hok as [Ha Hb]. inversion Hb; subst. apply Forall_app. split; [exact Ha|].
+      constructor; [|assumption]. split; cbn; auto.
+  - (* Write or Flush *)
+    destruct Hcur as [Hc [k Hk]].
+    destruct (st l evs) as [l2 s2] eqn:Est.
+    destruct (Hsplit (mkT (Some (c, l2, more)) (todo ts) (rets ts))) as (a & b & E1 & E2).
+    rewrite E2. subst ths. unfold file_inv. cbn [shared].
+    apply Forall_app in Hok as [Ha Hb]. inversion Hb as [|? ? _ Hb']; subst.
+    destruct k as [|[|k]]; cbn in Hk.
+    + (* the write *)
+      injection Hk as -> ->. cbn in Est. injection Est as <- <-.
+      rewrite disk_of_snoc. cbn [written].
+      destruct (complete_lines_snoc (disk_of evs) c Hfrag Hc) as [Ecl Efr].
+      split; [exact Efr|]. split.
+      * rewrite Ecl. rewrite file_pending_split in Hperm |- *.
+        assert (P1 : file_pending_thread ts = c :: todo ts) by (unfold file_pending_thread; rewrite Ecur; reflexivity).
+        rewrite P1 in Hperm. change (file_pending_thread _) with (todo ts).
+        eapply Permutation_trans; [|exact Hperm].
+        rewrite <- app_assoc. apply Permutation_app_head. cbn [app]. apply Permutation_middle.
+      * apply Forall_app. split; [exact Ha|].
+        constructor; [|assumption]. split; cbn; auto. split; [exact Hc|]. exists 1. reflexivity.
+    + (* the flush *)
+      injection Hk as -> ->. cbn in Est. injection Est as <- <-.
+      rewrite disk_of_snoc. cbn [written]. rewrite app_nil_r.
+      split; [exact Hfrag|]. split.
+      * rewrite file_pending_split in Hperm |- *.
+        assert (P1 : file_pending_thread ts = todo ts) by (unfold file_pending_thread; rewrite Ecur; reflexivity).
+        rewrite P1 in Hperm. exact Hperm.
+      * apply Forall_app. split; [exact Ha|].
+        constructor; [|assumption]. split; cbn; auto. split; [exact Hc|]. exists 2. reflexivity.
+    + destruct k; discriminate.
+  - destruct (todo ts) as [|c rest] eqn:Etodo; [repeat split; auto|].
+    (* Enter *)
+    destruct (Hsplit (mkT (Some (c, tt, file_body c)) rest (rets ts))) as (a & b & E1 & E2).
+    rewrite E2. subst ths. unfold file_inv. cbn [shared]. split; [exact Hfrag|]. split.
+    + rewrite file_pending_split in Hperm |- *.
+      assert (P1 : file_pending_thread ts = c :: rest) by (unfold file_pending_thread; rewrite Ecur, Etodo; reflexivity).
+      rewrite P1 in Hperm. exact Hperm.
+    + apply Forall_app in Hok as [Ha Hb]. inversion Hb; subst. apply Forall_app. split; [exact Ha|].
+      inversion Htodo; subst.
+      constructor; [|assumption]. split; cbn; auto. split; [assumption|]. exists 0. reflexivity.
+Qed.
+
+Lemma file_pending_finished (cfg : file_config) : finished cfg -> file_pending cfg = [].
+Proof.
+  unfold finished, file_pending. induction 1 as [|ts l [Hc Ht] Hl IH]; cbn; auto.
+  unfold file_pending_thread. rewrite Hc, Ht, IH. reflexivity.
+Qed.
+
+(* concurrent FileDestination calls, each Write carrying one whole newline-terminated, newline-free line:
+   for ALL schedules, at every moment, the file ends at a line boundary and its lines together with the
+   lines not yet written are a permutation of the lines of the programs: none torn, merged, duplicated
+   or dropped; when all threads are done the file's lines are a permutation of all the lines *)
+Theorem file_lines (progs : list (list (list byte))) (sched : list nat) :
+  Forall (Forall no_nl) progs ->
+  let cfg := file_run progs sched in
+  let disk := disk_of (shared cfg) in
+  fragment disk = [] /\
+  Permutation (complete_lines disk ++ file_pending cfg) (concat progs) /\
+  (finished cfg -> Permutation (complete_lines disk) (concat progs)).
+Proof.
+  intros Hp cfg disk.
+  assert (H : file_inv progs cfg).
+  { apply run_sched_ind; [intros; now apply file_inv_step|]. now apply file_inv_init. }
+  destruct H as (H1 & H2 & _). split; [exact H1|]. split; [exact H2|].
+  intros Hfin. fold disk in H2. rewrite (file_pending_finished cfg Hfin), app_nil_r in H2. exact H2.
+Qed.
+
+Example file_nonvacuous :
+  let progs := [[[104; 105]; [106]]; [[107; 108; 109]]; [[110]; []]]%N in
+  let cfg := file_run progs (segments [(0, 2); (1, 3); (2, 1); (0, 5); (2, 20); (1, 9); (0, 9)]) in
+  Forall (Forall no_nl) progs /\ finished cfg /\
+  complete_lines (disk_of (shared cfg)) = [[104; 105]; [107; 108; 109]; [106]; [110]; []]%N.
+Proof. vm_compute. repeat split; repeat constructor. Qed.
+
+(* payload and line break written by two calls (not the code): lines merge *)
+Theorem file_split_refuted :
+  exists progs sched,
+    Forall (Forall no_nl) progs /\
+    let cfg := file_run_split progs sched in
+    finished cfg /\ ~ Permutation (complete_lines (disk_of (shared cfg))) (concat progs).
+Proof.
+  exists [[[104]]; [[105]]]%N, (segments [(0, 2); (1, 5); (0, 3)]).
+  split; [repeat constructor|]. split; [vm_compute; repeat constructor|].
+  intros H. apply Permutation_sym in H. apply (Permutation_in [104%N]) in H; [|left; reflexivity].
+  vm_compute in H. destruct H as [H|[H|[]]]; discriminate.
+Qed.
